@@ -256,3 +256,74 @@ Proof.
   destruct (process m1 EReset (now e)) as [m3|] eqn:E3; [|discriminate]. injection H as <- _ _.
   destruct (process_state _ _ _ _ E3) as [_ (a & Hf & _)]. rewrite reset_always in Hf. injection Hf as Hs3 _. symmetry. exact Hs3.
 Qed.
+
+(* ---------------------------------------------------------------- exact answers (C07 / C14) *)
+Theorem on_message_answers m im t q : m_settings im = Some q -> m_reply_ok im = true ->
+  on_message m im t =
+  (if m_empty im then
+     match m_ans im with
+     | AGet b => Some (m, [OPub (TOther (match m_resp im with Some r => r | None => q end)) b false (Some COk) (m_cd im)], false)
+     | AInternal leaves =>
+         if sm_eqb (st m) Single then
+           if too_long MAX_TOPIC_LENGTH (m_resp im) then Some (m, respond im T_RESP_LONG CError, false)
+           else if too_long MAX_CD_LENGTH (m_cd im) then Some (m, respond im T_CD_LONG CError, false)
+           else bind (process m EMultipart t) (fun m' =>
+                  Some ({| st := st m'; timeout := timeout m';
+                           pd := {| p_rem := leaves; p_resp := m_resp im; p_cd := m_cd im |} |}, [], false))
+         else Some (m, respond im T_PENDING CError, false)
+     | AErr txt | AGetLarge txt => Some (m, respond im txt CError, false)
+     | _ => Some (m, [], false)
+     end
+   else
+     match m_ans im with
+     | ASetOk => Some (m, respond im T_OK COk, true)
+     | ASetErr txt => Some (m, respond im txt CError, false)
+     | _ => Some (m, [], false)
+     end).
+Proof. intros Hs Hr. unfold on_message. rewrite Hs, Hr. simpl. destruct (m_empty im), (m_ans im); reflexivity. Qed.
+
+Theorem respond_ok im payload c : m_reply_ok im = true ->
+  respond im payload c = match m_resp im with Some r => [OPub (TOther r) payload false (Some c) (m_cd im)] | None => [] end.
+Proof. intros H. unfold respond. rewrite H. reflexivity. Qed.
+
+Theorem no_request_no_response e m1 o1 m2 o2 ch : poll e = NoMsg ->
+  poll_action e m1 o1 = Some (m2, o2, ch) -> m2 = m1 /\ o2 = [] /\ ch = false.
+Proof. intros Hp H. unfold poll_action in H. rewrite Hp in H. injection H as <- <- <-. repeat split. Qed.
+
+Theorem too_long_refused m im t q leaves : m_settings im = Some q -> m_reply_ok im = true ->
+  m_empty im = true -> m_ans im = AInternal leaves -> st m = Single ->
+  (too_long MAX_TOPIC_LENGTH (m_resp im) = true ->
+     on_message m im t = Some (m, respond im T_RESP_LONG CError, false)) /\
+  (too_long MAX_TOPIC_LENGTH (m_resp im) = false -> too_long MAX_CD_LENGTH (m_cd im) = true ->
+     on_message m im t = Some (m, respond im T_CD_LONG CError, false)).
+Proof.
+  intros Hs Hr He Ha Hst. rewrite (on_message_answers _ _ _ _ Hs Hr), He, Ha, Hst. simpl.
+  split; [intros ->; reflexivity|intros -> ->; reflexivity].
+Qed.
+
+Theorem foreign_topic_ignored m im t : m_settings im = None -> on_message m im t = Some (m, [], false).
+Proof. intros H. unfold on_message. rewrite H. reflexivity. Qed.
+
+Theorem changed_only_by_message e m m' o ch : step e m = Some (m', o, ch) -> ch = true ->
+  exists im, poll e = Msg im /\ m_settings im <> None /\ m_empty im = false /\ m_ans im = ASetOk.
+Proof.
+  intros H Hc. unfold step, bind in H.
+  destruct (api_action e m) as [ma|]; [|discriminate].
+  destruct (if conn e then Some ma else process ma EReset (now e)) as [m0|]; [|discriminate].
+  destruct (state_action e m0) as [[m1 o1]|]; [|discriminate].
+  destruct (poll_action e m1 o1) as [[[m2 o2] ch2]|] eqn:Ep; [|discriminate]. injection H as _ _ <-. subst ch2.
+  unfold poll_action, bind in Ep. destruct (poll e) as [| |im] eqn:Epoll.
+  - discriminate.
+  - destruct (process m1 EReset (now e)); discriminate.
+  - exists im. split; [reflexivity|].
+    destruct (changed_iff_set_ok _ _ _ _ _ _ Ep) as [Hf _]. specialize (Hf eq_refl).
+    unfold cap_reply in Hf. destruct (accepted e); exact Hf.
+Qed.
+
+Theorem run_no_panic : forall es m, ~ In None (run es m) /\ length (run es m) = length es.
+Proof.
+  induction es as [|e r IH]; intros m; simpl; [split; [intros []|reflexivity]|].
+  destruct (step e m) as [[[m' o] ch]|] eqn:E; [|exfalso; exact (step_no_panic e m E)].
+  destruct (IH m') as [H1 H2]. split; [|simpl; rewrite H2; reflexivity].
+  intros [H|H]; [discriminate|exact (H1 H)].
+Qed.
